@@ -170,10 +170,11 @@ impl FailSafe {
     /// and resetting the breadcrumb to 0.
     ///
     /// `expire_sess_id` is the optional session ID of the exchange that
-    /// triggered the expiry — typically passed when the trigger arrived
-    /// over PASE, so the response can still be sent before the slot is
-    /// reclaimed. `None` for the timeout-driven path or when the trigger
-    /// arrived over CASE.
+    /// triggered the expiry. If that session is one of those the rollback
+    /// terminates (a PASE session, or a session on the fabric the rollback
+    /// removes) it is only marked as expired rather than dropped, so the
+    /// response can still be sent before the slot is reclaimed. `None` for
+    /// the timeout-driven path.
     ///
     /// Returns the local index of the fabric the rollback ended up removing,
     /// if any: a fabric added by the in-flight `AddNOC` has no persisted copy
@@ -236,6 +237,26 @@ impl FailSafe {
         // `expire_sess_id` alive (marked expired) so any in-flight
         // response can complete.
         sessions.remove_pase(expire_sess_id);
+
+        // A fabric that the rollback removed (the one added by the in-flight
+        // `AddNOC`) must not leave anything behind that is bound to its local
+        // index: the index is handed out again by the next commissioning, and a
+        // session that survived would then be evaluated against the access
+        // control list of the *next* fabric. So do for its sessions what
+        // `RemoveFabric` does: drop them all, except for the session the
+        // triggering command arrived on (if it is one of them), which is only
+        // marked as expired so that the response can still be sent.
+        // The resumption records and the subscriptions of the fabric are dropped
+        // by the `notify_fabric_removed` broadcast the caller follows up with.
+        if let Some(fab_idx) = removed_fabric {
+            let keep_sess_id = expire_sess_id.filter(|id| {
+                sessions
+                    .iter()
+                    .any(|sess| sess.id() == *id && sess.get_local_fabric_idx() == fab_idx.get())
+            });
+
+            sessions.remove_for_fabric(fab_idx, keep_sess_id);
+        }
 
         self.state = State::Idle;
         self.breadcrumb = 0;
